@@ -505,3 +505,156 @@ Theorem engine_equiv_hist_oracle_documents_guarded :
   eq_guard_run_hist ex_fixed (flatten false h2_tree) 24 l_pristine x_init [[102%N]; [101%N]; [103%N]] = true.
 Proof. exact eh_oracle_trees_guarded. Qed.
 Print Assumptions engine_equiv_hist_oracle_documents_guarded.
+
+(* ===================== work package `tt`: the static hypotheses hold for the charts flatten builds ===================== *)
+From V Require Import FlattenWf FlattenWfRun LegalHistFastRun ValidateBridge ValidateBridgeRun.
+From V Require Import FlattenStaticTrans FlattenStaticTree FlattenStaticHist FlattenStaticMain FlattenStaticWitness.
+
+(* WHAT: for EVERY document tree t (any element kinds, any numbers, any nesting, well-formed or not) and both
+   bindings, the transition tables Chart.flatten (LargeMicroStep::init) builds satisfy trans_tableb: the transition
+   list of a state is the ascending list of the transitions it is the source of, and the transitions are numbered
+   in post-fix order of their source elements.  No side condition.  This discharges the per-chart boolean
+   hypothesis trans_tableb of fast_large_select_equiv(_hist), fast_large_default_transitions_equiv,
+   fast_large_microstep_equiv_hist, eq_chartb, eq_chartb_hist for every chart built from a document
+   (hand-made flat charts can violate it: fast_large_microstep_equiv_hist_without_table_refuted). *)
+Theorem flatten_trans_table : forall late t, trans_tableb (flatten late t) = true.
+Proof. exact FlattenStaticTrans.flatten_trans_table. Qed.
+Print Assumptions flatten_trans_table.
+
+(* WHAT: hist_treeb (FlattenStaticTree.v) is a boolean well-formedness predicate on the DOCUMENT, for documents with
+   <initial> elements, deep / multiple `initial` attributes and shallow / deep <history>:
+     ht_rootb           the root is <scxml> and has a child element;
+     ht_nestb           nesting: <state>/<parallel> below <scxml>/<state>/<parallel>, <final> below <scxml>/<state>,
+                        <history>/<initial> below <state> only, nothing below <final>/<history>/<initial>;
+     ct_uniqueb         element numbers pairwise different;
+     ht_targetsb        a target attribute lists >= 1 ids of elements (not the root, not an <initial>), no two of
+                        them in different children of a <state>/<scxml>;
+     ht_initattrb       the same for `initial` attributes, the ids being ids of descendants;
+     ht_initialb        <initial> has exactly one transition, without cond/event, to proper states below the parent;
+     ht_historyb        <history> has exactly one transition, without cond/event, to proper states below the parent
+                        (deep) / proper children of the parent (shallow);
+     vb_hist_disjointb  no state below the parent of a deep <history> owns a <history> (C02-K1).
+   For every such document and both bindings the flat tables pass wf_histb and the root is a compound state: the
+   documents are inside the reach of the history theorems of C02 and C03.  No validator is involved (compare
+   validated_documents_are_covered, which needs the validator's verdict and vb_hidden_freshb).
+   NOT NEEDED by wf_histb but part of the predicate (inherited from ValidateBridge.VTree, on which the proof builds):
+   "no cond/event on the transition of a pseudo-state", "a target attribute of a PROPER state's transition is
+   non-empty and names existing elements", "<final> not below <parallel>"; no witness exists for these sub-clauses. *)
+Theorem flatten_wf_hist : forall late t, hist_treeb t = true ->
+  wf_histb (flatten late t) = true /\ fs_type (st (flatten late t) 0) = FCompound.
+Proof. exact flatten_wf_hist_lemma. Qed.
+Print Assumptions flatten_wf_hist.
+
+(* WHAT: no clause of hist_treeb can be dropped: for each of the 8 clauses a document that fails only that clause
+   and whose tables fail wf_histb or have no compound root (tables_bad).  The documents: <scxml/> (root); a
+   <history> below <parallel> (nest); a state carrying the root's number that is a transition target (unique); a
+   transition to two children of <scxml> (targets); initial="s1 s2" naming two children (initattr); an <initial>
+   whose transition names a <history> (initial); a <history> whose default transition names itself (history);
+   C02-K1 (disjoint).  Finite computations. *)
+Theorem hist_tree_clauses_needed :
+  forall k, (k < 8)%nat -> exists t,
+    (forall j, (j < 8)%nat -> nth j (ht_clauses t) true = negb (j =? k)%nat) /\ tables_bad t = true.
+Proof. exact hist_tree_clauses_needed_refuted. Qed.
+Print Assumptions hist_tree_clauses_needed.
+
+(* ... and where an illegal run exists both engine models reach an illegal configuration: root, targets, initattr,
+   history, disjoint (for nest, unique, initial no illegal run is known: the documents are outside wf_histb only) *)
+Theorem hist_tree_clauses_needed_runs :
+  run_illegal w_stateless [] = true /\ run_illegal w_two_children [[101%N]] = true /\ run_illegal w_initattr_two [] = true /\
+  run_illegal w_hist_self [[101%N]] = true /\ run_illegal kho_tree [[101%N]] = true.
+Proof. exact hist_tree_clauses_needed_runs_refuted. Qed.
+Print Assumptions hist_tree_clauses_needed_runs.
+
+(* WHAT: the remaining static hypotheses, for ANY document: leaf_okb from ct_leafb (a <final> has no child, a
+   <state>/<scxml> with children has a proper child state), par_nonemptyb from ct_par_nonemptyb; and hist_treeb
+   implies ct_leafb. *)
+Theorem flatten_leaf_ok : forall late t, ct_leafb t = true -> leaf_okb (flatten late t) = true.
+Proof. exact leaf_ok_flatten. Qed.
+Print Assumptions flatten_leaf_ok.
+Theorem flatten_par_nonempty : forall late t, ct_par_nonemptyb t = true -> par_nonemptyb (flatten late t) = true.
+Proof. exact par_nonempty_flatten. Qed.
+Print Assumptions flatten_par_nonempty.
+Theorem hist_tree_has_proper_leaves : forall t, hist_treeb t = true -> ct_leafb t = true.
+Proof. exact hist_tree_leaf. Qed.
+Print Assumptions hist_tree_has_proper_leaves.
+
+(* WHAT: ALL static hypotheses of the engine-equivalence theorems from document-level predicates:
+   eq_tree_histb t = hist_treeb t && every <parallel> has a child   gives eq_chartb_hist (flatten late t);
+   eq_tree_coreb t = core_treeb t && every <parallel> has a child && ct_leafb t   gives eq_chartb (flatten late t). *)
+Theorem document_static_hypotheses_hist : forall late t, eq_tree_histb t = true -> eq_chartb_hist (flatten late t) = true.
+Proof. exact eq_tree_hist_chart. Qed.
+Print Assumptions document_static_hypotheses_hist.
+Theorem document_static_hypotheses_core : forall late t, eq_tree_coreb t = true -> eq_chartb (flatten late t) = true.
+Proof. exact eq_tree_core_chart. Qed.
+Print Assumptions document_static_hypotheses_core.
+
+(* WHAT: fast_large_trace_equiv_hist at document level.  For EVERY document of eq_tree_histb (with <initial>, deep
+   initial attributes, histories, parallels), both bindings, both variants of the executable-content model, every
+   list of external events and every number of steps: if the dynamic guard eq_guard_run_hist holds along the LARGE
+   engine's run, FastMicroStep and LargeMicroStep produce the same trace and datamodel.  The only hypothesis on
+   the flat chart left is the dynamic guard (needed: fast_large_run_equiv_hist_without_guard_refuted).
+   NOT COVERED: invocations, delayed sends; documents outside eq_tree_histb. *)
+Theorem document_fast_large_run_equiv :
+  forall xv late t evs fuel,
+    eq_tree_histb t = true -> eq_guard_run_hist xv (flatten late t) fuel l_pristine x_init evs = true ->
+    run_fast xv late t evs fuel = run_large lg_fixed xv late t evs fuel.
+Proof. exact document_fast_large_run_equiv_lemma. Qed.
+Print Assumptions document_fast_large_run_equiv.
+
+(* ... related engine states and equal execution states *)
+Theorem document_fast_large_states_equiv :
+  forall xv late t evs fuel,
+    let c := flatten late t in
+    eq_tree_histb t = true -> eq_guard_run_hist xv c fuel l_pristine x_init evs = true ->
+    lstate_eqv c (fst (run_loop c lstate (fast_step xv c) l_cfg fuel l_pristine x_init evs))
+                 (fst (run_loop c lstate (large_step lg_fixed xv c) l_cfg fuel l_pristine x_init evs)) /\
+    snd (run_loop c lstate (fast_step xv c) l_cfg fuel l_pristine x_init evs) =
+    snd (run_loop c lstate (large_step lg_fixed xv c) l_cfg fuel l_pristine x_init evs).
+Proof. exact document_fast_large_states_equiv_lemma. Qed.
+Print Assumptions document_fast_large_states_equiv.
+
+(* ... the history-free core (fast_large_trace_equiv at document level) *)
+Theorem document_fast_large_run_equiv_core :
+  forall xv late t evs fuel,
+    eq_tree_coreb t = true -> eq_guard_run xv (flatten late t) fuel l_pristine x_init evs = true ->
+    run_fast xv late t evs fuel = run_large lg_fixed xv late t evs fuel.
+Proof. exact document_fast_large_run_equiv_core_lemma. Qed.
+Print Assumptions document_fast_large_run_equiv_core.
+
+(* ... SELECT_TRANSITIONS alone needs hist_treeb only *)
+Theorem document_fast_large_select_equiv :
+  forall late t cfg ev x,
+    let c := flatten late t in
+    hist_treeb t = true -> ascb cfg = true -> (forall s, In s cfg -> s < nstates c) ->
+    sel_guardb c cfg ev (cfg_postfix c cfg) None [] x = true ->
+    fselect c cfg ev (seq 0 (ntrans c)) [] x = select_loop lg_fixed c cfg ev (cfg_postfix c cfg) None [] x.
+Proof. exact document_fast_large_select_equiv_lemma. Qed.
+Print Assumptions document_fast_large_select_equiv.
+
+(* every <parallel> has a child cannot be dropped from eq_tree_histb: cp_tree (a child-less <parallel> inside a
+   region) is inside hist_treeb, the dynamic guard holds and the traces differ *)
+Theorem document_fast_large_run_equiv_childless_parallel_refuted :
+  hist_treeb cp_tree = true /\ ct_par_nonemptyb cp_tree = false /\
+  eq_guard_run_hist ex_fixed (flatten false cp_tree) 12 l_pristine x_init [[101%N]] = true /\
+  run_fast ex_fixed false cp_tree [[101%N]] 12 <> run_large lg_fixed ex_fixed false cp_tree [[101%N]] 12.
+Proof. exact par_nonempty_clause_needed_refuted. Qed.
+Print Assumptions document_fast_large_run_equiv_childless_parallel_refuted.
+
+(* non-vacuity: fs_doc_tree (a compound with <initial>, a shallow history, a compound child with a two-state
+   initial attribute into a <parallel> with two regions and a deep history, transitions into both histories, a
+   top-level <final>) satisfies eq_tree_histb; on e2 e4 e1 e6 e1 e5 the dynamic guard holds, the deep history
+   restores s62 inside the parallel, the shallow history restores s4, and both engines end in the same
+   configuration.  The example documents of C02/C03 are inside as well. *)
+Theorem document_hypotheses_satisfiable_hist :
+  eq_tree_histb fs_doc_tree = true /\
+  eq_guard_run_hist ex_fixed (flatten false fs_doc_tree) 40 l_pristine x_init fs_doc_events = true /\
+  map (fun i => fs_sid (st (flatten false fs_doc_tree) i)) (final_cfg_large fs_doc_tree [[102]; [104]; [101]; [106]]%N 40) = [0; 1; 4; 5; 6; 62; 7; 71]%N /\
+  map (fun i => fs_sid (st (flatten false fs_doc_tree) i)) (final_cfg_large fs_doc_tree fs_doc_events 40) = [0; 1; 4; 5; 6; 61; 7; 71]%N /\
+  final_cfg_fast fs_doc_tree fs_doc_events 40 = final_cfg_large fs_doc_tree fs_doc_events 40.
+Proof. exact document_hypotheses_hold. Qed.
+Print Assumptions document_hypotheses_satisfiable_hist.
+Theorem document_hypotheses_satisfiable_examples :
+  forallb eq_tree_histb [hini_tree; hh_tree; h2_tree; fd_tree; ex_tree; ex_tree2; k1_tree; k4_tree; nest_tree; eh_k4h_tree] = true /\
+  forallb eq_tree_coreb [ex_tree; ex_tree2; k1_tree; k4_tree; nest_tree] = true.
+Proof. exact document_hypotheses_hold_on_examples. Qed.
+Print Assumptions document_hypotheses_satisfiable_examples.
